@@ -1,9 +1,9 @@
 ------------------------------ MODULE LroTrace ------------------------------
 (***************************************************************************)
 (* Batched trace validation for Lro (code -> spec).  TRACE_FILE holds      *)
-(*   [ {c:{ann,out,rsp:{kind,site},mta:{kind,site}}, h:{k,outcome,value,   *)
-(*      code}, mode, events:[{ev,kind,resp,meta,err,rpc,chan,name,future,   *)
-(*      type,value,mtype,mvalue,code}..]} .. ]                             *)
+(*   [ {c:{ann,out,rsp:{kind,site},mta:{kind,site},fld,form}, h:{k,outcome,*)
+(*      value,code}, mode, events:[{ev,kind,resp,meta,err,rpc,chan,name,    *)
+(*      future,type,value,mtype,mvalue,code}..]} .. ]                      *)
 (* events:  gen / genfail  from the generator (Method hook event, raised    *)
 (* exception);  start / poll  from the loopback server + the log of the    *)
 (* one recorded channel;  wrap / resolve / fail / return  from the caller  *)
@@ -21,7 +21,8 @@ Ev == Traces[tid].events
 
 CaseOf(t) == [ann |-> Traces[t].c.ann, out |-> Traces[t].c.out,
               rsp |-> [kind |-> Traces[t].c.rsp.kind, site |-> Traces[t].c.rsp.site],
-              mta |-> [kind |-> Traces[t].c.mta.kind, site |-> Traces[t].c.mta.site]]
+              mta |-> [kind |-> Traces[t].c.mta.kind, site |-> Traces[t].c.mta.site],
+              fld |-> Traces[t].c.fld, form |-> Traces[t].c.form]
 HistOf(t) == [k |-> Traces[t].h.k, outcome |-> Traces[t].h.outcome, value |-> Traces[t].h.value, code |-> Traces[t].h.code]
 ResetFor(t) == /\ c' = CaseOf(t) /\ h' = HistOf(t) /\ mode' = Traces[t].mode
                /\ stage' = "load" /\ pos' = 0 /\ known' = {} /\ genres' = "pending" /\ lro' = [resp |-> "", meta |-> ""]
@@ -39,7 +40,8 @@ TLoad    == tid <= N /\ LoadTypes /\ UNCHANGED <<tid, l>>
 TGen     == IsEvent("gen") /\ ResolveLro /\ genres' = Ev[l].kind
             /\ lro' = [resp |-> Ev[l].resp, meta |-> Ev[l].meta]
 TGenFail == IsEvent("genfail") /\ ResolveLro /\ stage' = "failed" /\ genres' = Ev[l].err
-TStart   == IsEvent("start") /\ Start /\ Last(calls').rpc = Ev[l].rpc /\ Last(calls').chan = Ev[l].chan
+TStart   == IsEvent("start") /\ Start
+            /\ Last(calls') = [rpc |-> Ev[l].rpc, chan |-> Ev[l].chan, name |-> Ev[l].name]
 TWrap    == IsEvent("wrap") /\ Wrap /\ future' = Ev[l].future /\ seenMeta' = Meta(Ev[l])
 TReturn  == IsEvent("return") /\ Return /\ future' = Ev[l].future
             /\ result' = [type |-> Ev[l].type, value |-> Ev[l].value]
